@@ -107,10 +107,14 @@ pub enum Op {
     // ---- condvar ----
     /// `cv.wait(guard of m)`; requires m held by this thread (no-op otherwise)
     CvWait { c: u8, m: u8 },
+    /// `while a.load(o) != v { guard = cv.wait(guard) }` (the thread holds m)
+    CvWaitUntil { c: u8, m: u8, a: u8, o: MO, v: u64 },
     CvOne { c: u8 },
     CvAll { c: u8 },
     // ---- Notify ----
     NWait { n: u8 },
+    /// `while a.load(o) != v { n.wait() }`
+    NWaitUntil { n: u8, a: u8, o: MO, v: u64 },
     NNotify { n: u8 },
     // ---- mpsc ----
     Send { c: u8, v: u64 },
@@ -257,7 +261,9 @@ impl Op {
             | Op::AUnsyncLoad { a }
             | Op::Await { a, .. }
             | Op::BlockOn { a, .. }
-            | Op::AwaitY { a, .. } => Some(*a),
+            | Op::AwaitY { a, .. }
+            | Op::CvWaitUntil { a, .. }
+            | Op::NWaitUntil { a, .. } => Some(*a),
             Op::If { then, .. } => then.atomic_loc(),
             Op::Caught { op } => op.atomic_loc(),
             _ => None,
@@ -311,6 +317,8 @@ impl fmt::Display for Op {
             RUnlock { l } => write!(f, "runlock(rw{})", l),
             WUnlock { l } => write!(f, "wunlock(rw{})", l),
             CvWait { c, m } => write!(f, "cvwait(cv{},m{})", c, m),
+            CvWaitUntil { c, m, a, o, v } => write!(f, "cvwait_until(cv{},m{},a{},{},{})", c, m, a, o.short(), v),
+            NWaitUntil { n, a, o, v } => write!(f, "nwait_until(n{},a{},{},{})", n, a, o.short(), v),
             CvOne { c } => write!(f, "notify_one(cv{})", c),
             CvAll { c } => write!(f, "notify_all(cv{})", c),
             NWait { n } => write!(f, "nwait(n{})", n),
@@ -411,10 +419,10 @@ impl Program {
                 | FetchUpdate { a, .. }
                 | AWithMut { a, .. } => (0, *a, false),
                 Lock { m } | TryLock { m } | Unlock { m } | UnwindLock { m } => (1, *m, false),
-                CvWait { c, .. } | CvOne { c } | CvAll { c } => (3, *c, false),
+                CvWait { c, .. } | CvWaitUntil { c, .. } | CvOne { c } | CvAll { c } => (3, *c, false),
                 RLock { l } | TryRLock { l } | RUnlock { l } => (2, *l, true),
                 WLock { l } | TryWLock { l } | WUnlock { l } => (2, *l, false),
-                NWait { n } | NNotify { n } => (4, *n, false),
+                NWait { n } | NWaitUntil { n, .. } | NNotify { n } => (4, *n, false),
                 Send { c, .. } | Recv { c } | TryRecv { c } | DropRx { c } | DropTx { c } => {
                     (5, *c, false)
                 }
